@@ -4,23 +4,26 @@ from vlib import Group
 CH = ["--bounds-check", "--pointer-check"]
 # cpu: (unit, maxlen, unwind, tier, extra tables, twosafety)
 CPUS = {
-    "msp430": (2, 6, 140, "quick", ["STRINGS_ABSTRACT"], False),
+    "msp430": (2, 8, 140, "thorough", ["STRINGS_ABSTRACT", "CLASS_MASK=0xffbf", "CLASS_VAL=0x41b3"], False),
+    "msp430.pop_x_r3": (2, 8, 140, "quick", ["STRINGS_ABSTRACT", "CLASS_MASK=0xffbf", "CLASS_VAL=0x41b3", "CLASS_ONLY"], False),
     "6502": (1, 3, 140, "quick", [], False),
     "avr8": (2, 4, 140, "quick", [], False),
     "lc3": (2, 2, 140, "quick", [], False),
     "8008": (1, 3, 140, "quick", [], False),
-    "1802": (1, 3, 140, "quick", [], False),
+    "1802": (1, 3, 140, "quick", ["CLASS_MASK=0xff", "CLASS_VAL=0x68"], False),
+    "1802.prefix68": (1, 3, 140, "quick", ["CLASS_MASK=0xff", "CLASS_VAL=0x68", "CLASS_ONLY"], False),
     "pdp11": (2, 6, 140, "thorough", [], False),
     "tms9900": (2, 6, 140, "thorough", [], False),
     "z80": (1, 4, 300, "thorough", [], True),
 }
 GROUPS = []
-for cpu, (unit, maxlen, unw, tier, tables, two) in CPUS.items():
+for cpuname, (unit, maxlen, unw, tier, tables, two) in CPUS.items():
+    cpu = cpuname.split(".")[0]
     defs = ["CPU=%s" % cpu, "UNIT=%d" % unit, "MAXLEN=%d" % maxlen, "DISFN=disasm_%s" % cpu, "DISFILE=disasm/%s.cpp" % cpu, "TABLE1=table/%s.cpp" % cpu]
     defs += tables
     if two:
         defs.append("TWOSAFETY")
-    GROUPS.append(Group(name="C08/disasm_%s" % cpu, unity="C08/u_dis.cpp", entry="h_dis", c_sources=([] if "STRINGS_ABSTRACT" in tables else ["common/st_fmt.c"]),
+    GROUPS.append(Group(name="C08/disasm_%s" % cpuname, unity="C08/u_dis.cpp", entry="h_dis", c_sources=([] if "STRINGS_ABSTRACT" in tables else ["common/st_fmt.c"]),
                         functions=[("disasm_%s" % cpu, "disasm/%s.cpp" % cpu, "harness; table scans closed by unwinding %d with unwinding assertions" % unw),
                                    ("table_%s[]" % cpu, "table/%s.cpp" % cpu, "data")],
                         defines=defs, unwind=unw, checks=CH, timeout=900, tier=tier))
